@@ -72,7 +72,41 @@ pub fn measure(alg: Algorithm, old: &[Cnt], new: &[Cnt]) -> Result<(u64, usize, 
     Ok((cmps, d, ratio, calls_fp(&rec.calls)))
 }
 
+/// An earlier diff on the same thread with repeated items on one side only (`dups_old`) or the
+/// other: whatever it leaves behind must not make the next diff more expensive.
+fn prelude(alg: Algorithm, n: usize, dups_old: bool) {
+    let a: Vec<Cnt> = (0..n as u32).map(|i| Cnt(i / 2)).collect();
+    let b: Vec<Cnt> = (0..(n as u32 + 1) / 2).map(Cnt).collect();
+    let mut rec = Rec::new();
+    let _ = subject(|| {
+        if dups_old {
+            raw_into(alg, 0, &mut rec, &a[..], 0..a.len(), &b[..], 0..b.len(), None)
+        } else {
+            raw_into(alg, 0, &mut rec, &b[..], 0..b.len(), &a[..], 0..a.len(), None)
+        }
+    });
+}
+
 fn check(alg: Algorithm, old: &[Cnt], new: &[Cnt], what: &dyn Fn() -> String) -> Result<(f64, u64, u64, usize), String> {
+    // the bound holds for the diff on its own and right after other diffs on this thread
+    for history in 1..3 {
+        prelude(alg, old.len().max(new.len()).max(4), history == 1);
+        let (cmps, d, ratio, _) = measure(alg, old, new).map_err(|e| format!("{}: {}", what(), e))?;
+        if ratio > bound_c(alg) {
+            return Err(format!(
+                "{}: right after a diff with repeated items on the {} side only on the same thread, {} performed {} element comparisons for N={} M={} D={}: {:.1} x (N+M+1)(D+1), bound {} x",
+                what(),
+                if history == 1 { "old" } else { "new" },
+                alg_name(alg),
+                cmps,
+                old.len(),
+                new.len(),
+                d,
+                ratio,
+                bound_c(alg)
+            ));
+        }
+    }
     let (cmps, d, ratio, fp) = measure(alg, old, new).map_err(|e| format!("{}: {}", what(), e))?;
     if ratio > bound_c(alg) {
         return Err(format!(
@@ -186,6 +220,7 @@ pub fn run(cfg: &RunCfg) -> CheckReport {
         "part 'small': every (algorithm in {Myers, Patience}, old, new) of the listed scopes, comparisons counted by the element type's PartialEq, D = deletes+inserts of the script the algorithm reports; bound comparisons <= c*(N+M+1)*(D+1) with c = 6 (Myers) / 8 (Patience). Non-trivial: N,M >= 2 and D >= 1. part 'families': an enumerated (NOT exhaustive) list of large inputs at the listed sizes: 3 base texts (all-distinct, 4-symbol pseudo-random, period 7) x {identical, versus empty, single substitution / deletion / insertion at 11 grid positions, 27 block moves, shift by one, five scattered edits} plus unrelated / reversed / random-unrelated capped at 400 items. Cases distinct by construction.",
     );
     rep.assume("work = number of PartialEq calls on items (hashing in Patience is not counted); constants carry >= 4x slack over the measured maxima reported under 'maxima'");
+    rep.assume("every measurement is taken three times: right after a diff of a same-sized input with repeated items on the old side only, right after one with repeats on the new side only (same thread), and after the measured diff itself");
     rep.assume("the statement's large-size clause ('regardless of their length') is decided on enumerated families only; all pairs of that size are not enumerable");
     let space = PairSpace::new(match cfg.tier {
         Tier::Quick => vec![Scope::P { k: 3, n: 6 }, Scope::P { k: 2, n: 8 }, Scope::R { l: 9 }],
